@@ -246,7 +246,7 @@ def wrapOnce (level : String) (cfg : WrapCfg) (ecmp pcmp fmt : String) (root : D
   let ple : Option (DNode → DNode → Bool) :=
     if pcmp == "p" then some (fun a b => optLe (Deb.get a "Package".toList) (Deb.get b "Package".toList)) else none
   match level with
-  | "d" => deb822Wrap ple (some (paragraphWrap cfg ele f)) root
+  | "d" => if fmt == "x" then deb822Wrap ple none root else deb822Wrap ple (some (paragraphWrap cfg ele f)) root
   | "p" => match paragraphs root with
     | p :: _ => (paragraphWrap cfg ele f p).map fun p' => Node.node .ROOT [p']
     | [] => some (Node.node .ROOT [])
